@@ -52,6 +52,7 @@ func init() {
 
 func init() {
 	harnesses["tools"] = &Harness{Name: "tools", Pkg: "verifrt/h/htools", Rewrites: []Rewrite{{Dir: "tools", VRange: true}}}
+	harnesses["mexpect"] = &Harness{Name: "mexpect", Pkg: "cmd/mexpect", InPkgSrc: "harness/inpkg/mexpect"}
 	harnesses["mdb"] = &Harness{Name: "mdb", Pkg: "cmd/mdb", InPkgSrc: "harness/inpkg/mdb",
 		Rewrites: []Rewrite{{Dir: "cmd/mdb", VRange: true}}}
 	harnesses["corec"] = &Harness{Name: "corec", Pkg: "verifrt/h/hcorec", Race: true,
@@ -85,10 +86,10 @@ var checks = map[string]*Check{
 		LevelText:   "Every spec graph of the family (missing / variable / empty targets, terminal and unreachable nodes, native and source actions and guards) is compiled, analysed and rendered by the real tools; the analysis must equal a recomputation from the graph and the renderings, parsed back, must contain exactly one node per spec node and one edge per branch; no panic.",
 		LevelNote:   "Trusted: the line grammar used to parse the renderings back (node names are restricted to ones it recovers unambiguously).",
 		Assumptions: commonAssumptions},
-	"C19": {ID: "C19", Parts: []Part{{Harness: "tools", Func: "C19"}}, Category: "exploration", QuickDeadline: 240, ThoroughDeadline: 1500,
+	"C19": {ID: "C19", Parts: []Part{{Harness: "tools", Func: "C19"}, {Harness: "mexpect", Func: "C19mexpect"}}, Category: "exploration", QuickDeadline: 240, ThoroughDeadline: 1500,
 		Engine: "E1", DesignRef: "6/C19",
 		Technique:   "bounded-exhaustive enumeration of (session, output stream) pairs on the real Session.Run driving a scripted subprocess, against a reference of the pass conditions (soundness direction)",
-		LevelText:   "Every session over a small vocabulary of expected / inverted / guarded outputs and every short stream of emitted lines (with repetitions and noise) is run through the real tool against a subprocess that prints the stream; whenever the tool passes, the reference pass conditions must hold.",
+		LevelText:   "Every session over a small vocabulary of expected / inverted / guarded outputs and every short stream of emitted lines (with repetitions and noise) is run through the real tool against a subprocess that prints the stream; whenever the tool passes, the reference pass conditions must hold. cmd/mexpect's own main() is driven the same way on generated session files with several value-dependent guards, against a stand-in mcrew on PATH.",
 		LevelNote:   "Trusted: the reference pass conditions; cases expected to fail use a short timeout, which can only turn a pass into a fail. Only the false-pass direction is claimed.",
 		Assumptions: commonAssumptions},
 	"C15": {ID: "C15", Parts: []Part{{Harness: "sio", Func: "C15"}}, Category: "model_checking", QuickDeadline: 240, ThoroughDeadline: 1500,
